@@ -43,6 +43,7 @@ structure St where
   probes : List Probe := []
   started : Bool := false
   stall : Option String := none   -- tick of the open stall window
+  stallRejected : Bool := false   -- the registration held in the open window will be rejected
   types : List String := ["T1", "T2", "T3"]
   ids : List String := ["a", "b", "c"]
 
@@ -102,6 +103,10 @@ def quiesceLine (st : St) : String :=
       (expected st p t i).map fun v => s!"{t}/{i}={v}"
     s!"p{p.pid}: {" ".intercalate items} ;")
 
+def dupKeys : List PDecl → Bool
+  | [] => false
+  | d :: ds => ds.any (fun e => e.typ == d.typ && e.id == d.id) || dupKeys ds
+
 def stepLine (st0 : St) (op : String) (a : List (String × String)) : St × String :=
   -- a stall window stays open only across `w` ops of its own tick (and ignored `stall` ops)
   let keep := op == "stall" || op == "unstall" || (op == "w" && st0.stall == some (arg a "t"))
@@ -110,9 +115,13 @@ def stepLine (st0 : St) (op : String) (a : List (String × String)) : St × Stri
   | "stall" =>
     if st.stall.isSome then (st, "ok") else
     let p : Probe := { pid := argNat a "p", flavour := "r", decls := parseDecls (arg a "in") }
+    -- two inputs with equal keys (namespace, type, id): AddControllerInput rejects the second one, the
+    -- registration fails and is rolled back: no controller, nothing demanded, nothing notified
+    if dupKeys p.decls then ({ st with stall := some (arg a "t"), stallRejected := true }, "ok") else
     let p := if st.started then goLive st p else p
     ({ st with probes := st.probes.filter (·.pid != argNat a "p") ++ [p], stall := some (arg a "t") }, "ok")
-  | "unstall" => ({ st with stall := none }, "ok")
+  | "unstall" =>
+    ({ st with stall := none, stallRejected := false }, if st0.stallRejected then "reject" else "ok")
   | "reg" =>
     let p : Probe := { pid := argNat a "p", flavour := arg a "fl", decls := parseDecls (arg a "in") }
     let p := if st.started then goLive st p else p
